@@ -5,6 +5,7 @@ package symgo
 
 import (
 	"fmt"
+	"os"
 	"go/types"
 	"hash/fnv"
 	"sort"
@@ -51,6 +52,8 @@ type Result struct {
 	Intercepted  map[string]int64
 	MaxEvents    int
 	Diffs        []DiffQuery
+	IfConverted  int64
+	IfBailed     int64
 }
 
 type sampleEntry struct {
@@ -89,6 +92,7 @@ func newInterpreter(prog *ssa.Program, cfg *Config, opts Options) *interpreter {
 		maxSteps:  opts.MaxSteps,
 		cfg:       cfg,
 		natState:  map[string]interface{}{},
+		ifConv:    cfg == nil || !cfg.NoIfConv,
 	}
 	rt := prog.ImportedPackage("runtime")
 	if rt == nil {
@@ -269,6 +273,8 @@ func (ex *explorer) worker(w int) {
 			}
 		}
 		r.Poisoned = append(r.Poisoned, in.Poisoned...)
+		r.IfConverted += in.ifStats.Converted
+		r.IfBailed += in.ifStats.Bailed
 		if maxEvents > r.MaxEvents {
 			r.MaxEvents = maxEvents
 		}
@@ -311,7 +317,14 @@ func (ex *explorer) worker(w int) {
 		case pathAbort:
 		case targetPanic:
 			// a panic that escaped the harness
-			msg := "uncaught panic: " + renderPanic(in, o)
+			if tf := os.Getenv("SYMGO_TRACEPANIC"); tf != "" && in.traceFn == "" {
+				in.traceFn = tf
+				evs := append([]event(nil), sym.events[:sym.pos]...)
+				fmt.Fprintf(os.Stderr, "TRACE re-running path %s\n", eventsString(evs))
+				ex.runPath(in, sym, evs)
+				os.Exit(9)
+			}
+			msg := "uncaught panic: " + renderPanic(in, o) + " [in " + strings.Join(in.lastPanicWhere, " < ") + "]"
 			sym.asserts["uncaught panic"]++
 			sym.ensureModelSafe()
 			v := Violation{Property: opts.Property, Label: "uncaught panic", Disc: sym.disc, Model: sym.model, Events: eventsString(sym.events[:sym.pos])}
@@ -422,6 +435,9 @@ func (ex *explorer) runPath(in *interpreter, sym *symCtx, prefix []event) (outco
 	sym.beginPath(prefix)
 	in.stack = in.stack[:0]
 	in.sp = 0
+	in.spec = nil
+	in.freshMaps = nil
+	sym.noFork = false
 	in.frozenCells = nil
 	defer func() {
 		if r := recover(); r != nil {
